@@ -52,6 +52,9 @@ thread_local! {
 pub fn set_mode(m: Mode) {
     MODE.with(|c| *c.borrow_mut() = m);
 }
+pub fn peek_locks() -> usize {
+    LOG.with(|l| l.borrow().locks.len())
+}
 pub fn take_log() -> ThreadLog {
     LOG.with(|l| std::mem::take(&mut *l.borrow_mut()))
 }
@@ -209,6 +212,10 @@ pub struct Inner {
     pub freeze_at: Vec<Option<u64>>,
     pub blocked_on_lock_events: u64,
     pub park_events: u64,
+    /// set by the controller when the run is over: every waiting worker unwinds
+    pub shutdown: bool,
+    pub status_at_verdict: Vec<Status>,
+    pub last_op: Vec<(&'static str, u32)>,
 }
 
 pub struct Sched {
@@ -238,6 +245,9 @@ impl Sched {
                 freeze_at: vec![None; n],
                 blocked_on_lock_events: 0,
                 park_events: 0,
+                shutdown: false,
+                status_at_verdict: Vec::new(),
+                last_op: vec![("", 0); n],
             }),
             cv: Condvar::new(),
         })
@@ -257,14 +267,9 @@ impl Sched {
                 !l.is_locked()
             }
             Status::Parked => inner.tokens[t],
-            Status::Spinning(since) => {
-                // a spinner may run again once some other thread made a step
-                inner
-                    .last_progress
-                    .iter()
-                    .enumerate()
-                    .any(|(o, s)| o != t && *s > since)
-            }
+            // a spinning thread re-checks its condition when it runs again; whether it makes
+            // progress is judged by the step limit, not here
+            Status::Spinning(_) => true,
         }
     }
 
@@ -321,7 +326,7 @@ impl Sched {
     /// Called by worker `me` at a yield point, with its new status. Returns when `me` may run.
     fn yield_as(&self, me: usize, st: Status) -> Result<(), Abort> {
         let mut g = self.inner.lock().unwrap();
-        if g.verdict != Verdict::Running {
+        if g.shutdown {
             return Err(Abort);
         }
         g.status[me] = st;
@@ -363,6 +368,7 @@ impl Sched {
                     .enumerate()
                     .all(|(t, s)| *s == Status::Finished || g.frozen[t]);
                 g.verdict = if all_done { Verdict::Done } else { Verdict::Deadlock };
+                g.status_at_verdict = g.status.clone();
             }
         }
         self.cv.notify_all();
@@ -370,10 +376,10 @@ impl Sched {
 
     fn wait_turn(&self, mut g: std::sync::MutexGuard<'_, Inner>, me: usize) -> Result<(), Abort> {
         loop {
-            if g.verdict != Verdict::Running && g.current != Some(me) {
+            if g.shutdown {
                 return Err(Abort);
             }
-            if g.current == Some(me) {
+            if g.current == Some(me) && g.verdict == Verdict::Running {
                 // consume what made us runnable
                 if g.status[me] == Status::Parked {
                     g.tokens[me] = false;
@@ -433,6 +439,18 @@ impl Sched {
         g.verdict
     }
 
+    /// controller: the run is over, release every worker that is still waiting
+    pub fn shutdown(&self) {
+        let mut g = self.inner.lock().unwrap();
+        g.shutdown = true;
+        self.cv.notify_all();
+    }
+
+    /// an extra yield point requested by the harness itself
+    pub fn yield_public(&self, me: usize) -> Result<(), Abort> {
+        self.yield_as(me, Status::Ready)
+    }
+
     fn unpark(&self, id: std::thread::ThreadId) {
         let mut g = self.inner.lock().unwrap();
         for t in 0..g.thread_ids.len() {
@@ -488,6 +506,9 @@ impl Hooks for H {
                         line: op.loc.line(),
                     })
                 });
+                {
+                    s.inner.lock().unwrap().last_op[*me] = (op.loc.file(), op.loc.line());
+                }
                 if s.yield_as(*me, Status::Ready).is_err() {
                     abort_thread();
                 }
